@@ -54,6 +54,7 @@ pub fn case(data: &[u8], prop: &str) -> arbitrary::Result<Case> {
         post_create: hooks(&mut u)?,
         pre_recycle: hooks(&mut u)?,
         post_recycle: hooks(&mut u)?,
+        via: 0,
     };
     let script = Script {
         create: outs(&mut u, 12)?,
